@@ -1,0 +1,60 @@
+//go:build verif
+
+package erpc
+
+import "net"
+
+// Verification hooks (build tag "verif"). All are nil by default, in which
+// case behaviour is identical to a normal build.
+const verifOn = true
+
+var (
+	verifSpawn    func(fn func()) bool
+	verifDial     func(d *Dialer, addr string) (net.Conn, error)
+	verifOnStatus func(sess Session, from, to int32)
+	verifOnFatal  func(msg string)
+)
+
+// VerifSetSpawn replaces the goroutine pool behind Go/AnywayGo/MustGo/TryGo.
+func VerifSetSpawn(fn func(fn func()) bool) { verifSpawn = fn }
+
+// VerifSetDial replaces Dialer.dialOne.
+func VerifSetDial(fn func(d *Dialer, addr string) (net.Conn, error)) { verifDial = fn }
+
+// VerifSetOnStatus installs an observer of session status transitions.
+// from is -1 for an unconditional store.
+func VerifSetOnStatus(fn func(sess Session, from, to int32)) { verifOnStatus = fn }
+
+// VerifSetOnFatal installs a function that is called by Fatalf before the process exits.
+func VerifSetOnFatal(fn func(msg string)) { verifOnFatal = fn }
+
+// VerifServeListener serves an arbitrary listener (the unexported serveListener).
+func VerifServeListener(p Peer, lis net.Listener, protoFunc ...ProtoFunc) error {
+	return p.(*peer).serveListener(lis, protoFunc...)
+}
+
+// VerifSessionStatus returns the internal status of the session.
+func VerifSessionStatus(s Session) int32 { return s.(*session).getStatus() }
+
+// VerifPendingCalls returns the number of calls waiting for a reply on the session.
+func VerifPendingCalls(s Session) int { return s.(*session).callCmdMap.Len() }
+
+// VerifSessionOf returns the Session behind a CtxSession/PreSession/BaseSession value.
+func VerifSessionOf(v interface{}) Session { s, _ := v.(*session); return s }
+
+// VerifSentinels returns the package-level framework statuses by name.
+func VerifSentinels() map[string]*Status {
+	return map[string]*Status{
+		"statInvalidOpError":      statInvalidOpError,
+		"statUnknownError":        statUnknownError,
+		"statDialFailed":          statDialFailed,
+		"statConnClosed":          statConnClosed,
+		"statWriteFailed":         statWriteFailed,
+		"statBadMessage":          statBadMessage,
+		"statNotFound":            statNotFound,
+		"statCodeMtypeNotAllowed": statCodeMtypeNotAllowed,
+		"statHandleTimeout":       statHandleTimeout,
+		"statInternalServerError": statInternalServerError,
+		"statUnpreparedError":     statUnpreparedError,
+	}
+}
